@@ -9,7 +9,7 @@
 #define T_NAME "lfuda"
 #define T_POLICY P_LFUDA
 #define T_HAS_AGE 1
-using C = cappuccino::lfuda_cache<uint64_t, uint64_t, cappuccino::thread_safe::TS>;
+using C = cappuccino::lfuda_cache<uint64_t, VAL_T, cappuccino::thread_safe::TS>;
 #define DECL_C(c) C c(HCAP, std::chrono::milliseconds{cfg_tick}, T_RATIO4 / 4.0f)
 #else
 #include <cappuccino/lfu_cache.hpp>
@@ -17,7 +17,7 @@ using C = cappuccino::lfuda_cache<uint64_t, uint64_t, cappuccino::thread_safe::T
 #define T_NAME "lfu"
 #define T_POLICY P_LFU
 #define T_HAS_AGE 0
-using C = cappuccino::lfu_cache<uint64_t, uint64_t, cappuccino::thread_safe::TS>;
+using C = cappuccino::lfu_cache<uint64_t, VAL_T, cappuccino::thread_safe::TS>;
 #define DECL_C(c) C c(HCAP)
 #endif
 #define T_TTL 0
@@ -32,20 +32,20 @@ using C = cappuccino::lfu_cache<uint64_t, uint64_t, cappuccino::thread_safe::TS>
 #define ASSUME_BOUNDS(c, pre)                                                                                          \
     for (size_t p_ = 0; p_ < AMAX; ++p_)                                                                               \
     __vf_assume((pre).cnt[p_] < (1u << 16))
-static bool x_insert(C& c, uint64_t k, uint64_t v, uint8_t a, int64_t) { return c.insert(k, v, (cappuccino::allow)a); }
+static bool x_insert(C& c, uint64_t k, uint64_t v, uint8_t a, int64_t) { return c.insert(k, VAL_T(v), (cappuccino::allow)a); }
 static bool x_erase(C& c, uint64_t k) { return c.erase(k); }
 static void x_find(C& c, uint64_t k, bool pk, Res& r)
 {
     auto o = c.find_with_use_count(k, pk);
     r.ok   = o.has_value();
-    r.val  = r.ok ? (*o).first : 0;
+    r.val  = r.ok ? val_u((*o).first) : 0;
     r.cnt  = r.ok ? (*o).second : 0;
 }
 static void x_find_plain(C& c, uint64_t k, bool pk, Res& r)
 {
     auto o = c.find(k, pk);
     r.ok   = o.has_value();
-    r.val  = r.ok ? *o : 0;
+    r.val  = r.ok ? val_u(*o) : 0;
     r.cnt  = 0;
 }
 #ifdef VF_REAL
@@ -70,7 +70,7 @@ static void alpha_real(C& c, Abs& a)
         auto  node = it->second; // list nodes are never freed: dereferencing is safe
         auto& e    = *node;
         a.k[p]     = key_of_node(c, node, p);
-        a.v[p]     = e.m_value;
+        a.v[p] = val_u(e.m_value);
         a.cnt[p]   = it->first;
 #ifdef C_IS_LFUDA
         a.age[p] = tp_i(e.m_dynamic_age);
